@@ -1,40 +1,587 @@
-// probe version
+// Harness for C15 "Rendering is deterministic and renders do not interfere".
+//
+// Runs /repo's full pipeline (tree.NewHTML -> document.Render -> Write on the
+// recording backend) on generated paginated documents and compares complete
+// traces (every backend call with its arguments, anchors per page in the order
+// the backend got them, bookmarks, metadata):
+//
+//	kind 0  the same document rendered k=5 times in one process
+//	kind 1  ... in different fresh processes (re-exec of this binary)
+//	kind 2  N=8 distinct documents rendered concurrently, each goroutine with
+//	        its own font configuration, vs their sequential traces
+//	kind 3  history: the document alone in a fresh process vs after other documents
+//
+// plus direct cases for the modelled map-iteration sites: the anchors the
+// backend received (CAnchors), tree.ResumeStack.Unpack (CUnpack) and histories
+// on layout.brokenOutOfFlowMap through the hook html/layout/verif_export_c15.go
+// (COMap).  With -mode race (binary built with -race) it only runs the
+// concurrent batches; the race detector's reports are collected by checks/C15.py.
 package main
 
 import (
+	"encoding/json"
 	"flag"
 	"fmt"
+	"os"
+	"os/exec"
+	"path/filepath"
+	"sort"
+	"strings"
+	"sync"
 	"time"
 
 	"verifharness/vlib"
 	"verifharness/vlib/render"
+
+	"github.com/benoitkugler/webrender/html/layout"
+	"github.com/benoitkugler/webrender/html/tree"
 )
 
-func main() {
-	n := flag.Int("n", 20, "docs")
-	k := flag.Int("k", 5, "repeats")
-	flag.Parse()
+// ------------------------------------------------------------------ child protocol
+
+type Job struct {
+	Docs []Doc    `json:"docs"`
+	Plan [][2]int `json:"plan"` // (doc index, repeats), in order
+}
+
+type Rendered struct {
+	Doc     int         `json:"doc"`
+	Digests [][5]uint64 `json:"digests"`
+	First   Trace       `json:"first"`           // full trace of the first render
+	Other   *Trace      `json:"other,omitempty"` // first render whose digest differs from First
+}
+
+func childMain(in, out string) {
+	b, err := os.ReadFile(in)
+	if err != nil {
+		panic(err)
+	}
+	var job Job
+	if err := json.Unmarshal(b, &job); err != nil {
+		panic(err)
+	}
+	var res []Rendered
+	for _, p := range job.Plan {
+		r := Rendered{Doc: p[0]}
+		for k := 0; k < p[1]; k++ {
+			t := renderTrace(job.Docs[p[0]], render.NewPango())
+			d := t.Digest()
+			if k == 0 {
+				r.First = t
+			} else if d != r.Digests[0] && r.Other == nil {
+				tt := t
+				r.Other = &tt
+			}
+			r.Digests = append(r.Digests, d)
+		}
+		res = append(res, r)
+	}
+	ob, _ := json.Marshal(res)
+	if err := os.WriteFile(out, ob, 0o644); err != nil {
+		panic(err)
+	}
+}
+
+// runJobs executes every job in its own fresh process, `par` at a time
+func runJobs(jobs []Job, dir, tag string, par int) [][]Rendered {
+	exe, _ := os.Executable()
+	out := make([][]Rendered, len(jobs))
+	sem := make(chan struct{}, par)
+	var wg sync.WaitGroup
+	var mu sync.Mutex
+	var firstErr error
+	for i := range jobs {
+		wg.Add(1)
+		go func(i int) {
+			defer wg.Done()
+			sem <- struct{}{}
+			defer func() { <-sem }()
+			in := filepath.Join(dir, fmt.Sprintf("job-%s-%d.in.json", tag, i))
+			of := filepath.Join(dir, fmt.Sprintf("job-%s-%d.out.json", tag, i))
+			b, _ := json.Marshal(jobs[i])
+			os.WriteFile(in, b, 0o644)
+			cmd := exec.Command(exe, "-child", in, "-childout", of)
+			cmd.Env = os.Environ()
+			if o, err := cmd.CombinedOutput(); err != nil {
+				mu.Lock()
+				if firstErr == nil {
+					firstErr = fmt.Errorf("child %s-%d: %v\n%s", tag, i, err, tail(string(o), 3000))
+				}
+				mu.Unlock()
+				return
+			}
+			rb, err := os.ReadFile(of)
+			if err == nil {
+				err = json.Unmarshal(rb, &out[i])
+			}
+			if err != nil {
+				mu.Lock()
+				if firstErr == nil {
+					firstErr = err
+				}
+				mu.Unlock()
+			}
+			os.Remove(in)
+			os.Remove(of)
+		}(i)
+	}
+	wg.Wait()
+	if firstErr != nil {
+		fmt.Fprintln(os.Stderr, firstErr)
+		os.Exit(3)
+	}
+	return out
+}
+
+func tail(s string, n int) string {
+	if len(s) > n {
+		return s[len(s)-n:]
+	}
+	return s
+}
+
+// ------------------------------------------------------------------ documents
+
+func loadCorpus() []Doc {
+	files, _ := filepath.Glob("/verif/corpus/C15/*.json")
+	sort.Strings(files)
+	var out []Doc
+	for _, f := range files {
+		b, err := os.ReadFile(f)
+		if err != nil {
+			continue
+		}
+		var d Doc
+		if json.Unmarshal(b, &d) == nil && d.HTML != "" {
+			out = append(out, d)
+		}
+	}
+	return out
+}
+
+func makeDocs(n int) []Doc {
+	docs := loadCorpus()
 	rng := vlib.NewRng(vlib.Seed())
-	for i := 0; i < *n; i++ {
-		d := genDoc(rng.Fork(), i)
-		t0 := time.Now()
-		ref := renderTrace(d, render.NewPango())
-		el := time.Since(t0)
-		diffs := 0
-		first := ""
-		for j := 1; j < *k; j++ {
-			t := renderTrace(d, render.NewPango())
-			if t.Digest() != ref.Digest() {
-				diffs++
-				if first == "" {
-					first = firstDiff(ref, t)
+	for i := 0; len(docs) < n; i++ {
+		docs = append(docs, genDoc(rng.Fork(), i))
+	}
+	return docs
+}
+
+// ------------------------------------------------------------------ Coq printers
+
+func coqDigest(d [5]uint64) string {
+	s := make([]string, 5)
+	for i, x := range d {
+		s[i] = fmt.Sprintf("%d", x)
+	}
+	return "[" + strings.Join(s, "; ") + "]"
+}
+
+func coqAnchors(t Trace) string {
+	pages := make([]string, len(t.Anchors))
+	for i, p := range t.Anchors {
+		as := make([]string, len(p))
+		for j, a := range p {
+			as[j] = fmt.Sprintf("An %s %s %s", vlib.Bytes(a.Name), vlib.Q32(a.X), vlib.Q32(a.Y))
+		}
+		pages[i] = vlib.List(as)
+	}
+	return "CAnchors " + vlib.List(pages)
+}
+
+type sameDesc struct {
+	Doc      string   `json:"doc"`
+	Tags     []string `json:"tags"`
+	Compared string   `json:"compared"`
+	Runs     int      `json:"runs"`
+	Status   string   `json:"status"`
+	Pages    int      `json:"pages"`
+	Events   int      `json:"events"`
+	Diff     string   `json:"first_difference,omitempty"`
+	Input    *Doc     `json:"input,omitempty"` // full document when a run differs (the failing input)
+}
+
+func sameCase(kind int, what string, d Doc, ref Trace, refD [5]uint64, runs [][5]uint64, diff string) vlib.Case {
+	rs := make([]string, len(runs))
+	differs := false
+	for i, r := range runs {
+		rs[i] = coqDigest(r)
+		if r != refD {
+			differs = true
+		}
+	}
+	desc := sameDesc{Doc: d.Name, Tags: d.Tags, Compared: what, Runs: len(runs), Status: ref.Status, Pages: ref.Pages, Events: len(ref.Events)}
+	if differs {
+		desc.Diff = diff
+		dd := d
+		desc.Input = &dd
+	}
+	kinds := []string{"repeat", "fresh-process", "concurrent", "history"}
+	return vlib.Case{Kind: kinds[kind], Coq: fmt.Sprintf("CSame %d %s %s", kind, coqDigest(refD), vlib.List(rs)),
+		Desc: desc, Tags: d.Tags, Nontrivial: ref.Status == "ok" && len(ref.Events) > 50, Key: fmt.Sprintf("%s/%s", kinds[kind], d.Name)}
+}
+
+// ------------------------------------------------------------------ concurrent batches
+
+// renderBatch renders the documents concurrently, one goroutine and one font
+// configuration each
+func renderBatch(docs []Doc) []Trace {
+	out := make([]Trace, len(docs))
+	var wg sync.WaitGroup
+	start := make(chan struct{})
+	for i := range docs {
+		wg.Add(1)
+		go func(i int) {
+			defer wg.Done()
+			fonts := render.NewPango()
+			<-start
+			out[i] = renderTrace(docs[i], fonts)
+		}(i)
+	}
+	close(start)
+	wg.Wait()
+	return out
+}
+
+const batchN = 8
+
+// ------------------------------------------------------------------ direct site cases
+
+func unpackCases(w *vlib.Writer, rng *vlib.Rng) {
+	stacks := [][]int{{}, {0}, {3}, {0, 2}, {1, 5, 7}, {0, 1, 2, 3}, {4, 9}, {2}}
+	for i := 0; i < 12; i++ {
+		var keys []int
+		if i < len(stacks) {
+			keys = stacks[i]
+		} else {
+			seen := map[int]bool{}
+			for n := rng.Range(1, 5); len(keys) < n; {
+				k := rng.Intn(12)
+				if !seen[k] {
+					seen[k] = true
+					keys = append(keys, k)
 				}
 			}
 		}
-		na := 0
-		for _, p := range ref.Anchors {
-			na += len(p)
+		var results []int
+		distinct := map[int]bool{}
+		for c := 0; c < 64; c++ {
+			r := tree.ResumeStack{}
+			for _, k := range keys { // built afresh each time
+				r[k] = nil
+			}
+			var got int
+			o := render.Guard(func() { got, _ = r.Unpack() })
+			if o.Status != "ok" {
+				got = -1
+			}
+			results = append(results, got)
+			distinct[got] = true
 		}
-		fmt.Printf("%s %s %s pages=%d events=%d anchors=%d bm=%d %v tags=%v diffs=%d %s\n", d.Name, ref.Status, ref.Msg, ref.Pages, len(ref.Events), na, len(ref.Bookmarks), el, d.Tags, diffs, first)
+		ks, rs := make([]string, len(keys)), make([]string, len(results))
+		for j, k := range keys {
+			ks[j] = vlib.Z(k) + "%Z"
+		}
+		for j, r := range results {
+			rs[j] = vlib.Z(r) + "%Z"
+		}
+		tags := []string{fmt.Sprintf("keys-%d", len(keys))}
+		if len(distinct) > 1 {
+			tags = append(tags, "order-observed") // the refutation witness replayed on Go
+		}
+		w.Add(vlib.Case{Kind: "unpack", Coq: fmt.Sprintf("CUnpack %s %s", vlib.List(ks), vlib.List(rs)),
+			Desc: map[string]interface{}{"stack_keys": keys, "distinct_results_in_64_calls": len(distinct)}, Tags: tags, Nontrivial: len(keys) > 0})
 	}
+}
+
+func omapCases(w *vlib.Writer, rng *vlib.Rng, n int) {
+	const pool = 8
+	for c := 0; c < n; c++ {
+		r := rng.Fork()
+		var ops []layout.VerifBrokenMapOp
+		var coq []string
+		for i := r.Range(1, 14); i > 0; i-- {
+			switch k := r.Intn(10); {
+			case k < 5:
+				op := layout.VerifBrokenMapOp{Kind: 0, K: r.Intn(pool), V: r.Intn(pool)}
+				ops = append(ops, op)
+				coq = append(coq, fmt.Sprintf("OSet %d %d", op.K, op.V))
+			case k < 7:
+				op := layout.VerifBrokenMapOp{Kind: 1, K: r.Intn(pool)}
+				ops = append(ops, op)
+				coq = append(coq, fmt.Sprintf("ODelete %d", op.K))
+			case k == 7 && r.Chance(1, 3):
+				ops = append(ops, layout.VerifBrokenMapOp{Kind: 2})
+				coq = append(coq, "OClear")
+			default:
+				op := layout.VerifBrokenMapOp{Kind: 3}
+				var o []string
+				for j := r.Range(0, 4); j > 0; j-- {
+					kv := [2]int{r.Intn(pool), r.Intn(pool)}
+					op.Other = append(op.Other, kv)
+					o = append(o, fmt.Sprintf("(%d, %d)", kv[0], kv[1]))
+				}
+				ops = append(ops, op)
+				coq = append(coq, "OUpdate "+vlib.List(o))
+			}
+		}
+		vals := layout.VerifBrokenMapRun(ops, pool)
+		vs := make([]string, len(vals))
+		for i, v := range vals {
+			vs[i] = fmt.Sprintf("%d", v)
+		}
+		w.Add(vlib.Case{Kind: "omap", Coq: fmt.Sprintf("COMap %s %s", vlib.List(coq), vlib.List(vs)),
+			Desc: map[string]interface{}{"ops": ops, "values": vals}, Nontrivial: len(ops) > 2})
+	}
+}
+
+// ------------------------------------------------------------------ race detector
+
+// raceCase runs the second binary (built with -race by checks/C15.py, path in
+// VERIF_C15_RACE_BIN) on the concurrent batches and turns the detector's
+// reports into one CRace case.
+func raceCase(w *vlib.Writer, dir string) {
+	bin := os.Getenv("VERIF_C15_RACE_BIN")
+	if bin == "" {
+		return
+	}
+	n := os.Getenv("VERIF_C15_RACE_N")
+	if n == "" {
+		n = "16"
+	}
+	rounds := os.Getenv("VERIF_C15_RACE_ROUNDS")
+	if rounds == "" {
+		rounds = "1"
+	}
+	t0 := time.Now()
+	cmd := exec.Command(bin, "-mode", "race", "-n", n, "-rounds", rounds)
+	cmd.Env = append(os.Environ(), "GORACE=halt_on_error=0")
+	ob, err := cmd.CombinedOutput()
+	outS := string(ob)
+	if err != nil && !strings.Contains(outS, "race-mode: rendered") {
+		fmt.Fprintf(os.Stderr, "race binary failed: %v\n%s\n", err, tail(outS, 3000))
+		os.Exit(4)
+	}
+	blocks := strings.Split(outS, "==================")
+	var reports []map[string]interface{}
+	for _, b := range blocks {
+		if !strings.Contains(b, "WARNING: DATA RACE") {
+			continue
+		}
+		var frames []string
+		for _, l := range strings.Split(b, "\n") {
+			l = strings.TrimSpace(l)
+			if strings.HasPrefix(l, "/repo/") {
+				if i := strings.Index(l, " "); i > 0 {
+					l = l[:i]
+				}
+				frames = append(frames, strings.TrimPrefix(l, "/repo/"))
+			}
+		}
+		top := ""
+		if len(frames) > 0 {
+			top = frames[0]
+		}
+		if len(reports) < 4 {
+			reports = append(reports, map[string]interface{}{"site": top, "report": tail(b, 200) + " ...", "head": headLines(b, 14)})
+		}
+	}
+	nrep := strings.Count(outS, "WARNING: DATA RACE")
+	tags := []string{"race-detector"}
+	for _, r := range reports {
+		tags = append(tags, "site:"+r["site"].(string))
+	}
+	w.Add(vlib.Case{Kind: "race", Coq: fmt.Sprintf("CRace %d", nrep),
+		Desc: map[string]interface{}{"documents": n, "rounds": rounds, "batch": batchN, "reports": nrep, "first_reports": reports,
+			"wall": time.Since(t0).String(), "rerun": bin + " -mode race -n " + n},
+		Tags: tags, Nontrivial: true})
+}
+
+func headLines(s string, n int) string {
+	ls := strings.Split(strings.TrimSpace(s), "\n")
+	if len(ls) > n {
+		ls = ls[:n]
+	}
+	return strings.Join(ls, "\n")
+}
+
+// ------------------------------------------------------------------ main
+
+func main() {
+	out := flag.String("out", "cases.jsonl", "output file")
+	n := flag.Int("n", 60, "number of documents")
+	child := flag.String("child", "", "(internal) job file")
+	childOut := flag.String("childout", "", "(internal) result file")
+	mode := flag.String("mode", "full", "full | race (concurrent batches only, for the -race binary)")
+	rounds := flag.Int("rounds", 1, "race mode: how many times every batch is rendered")
+	flag.Parse()
+
+	if *child != "" {
+		childMain(*child, *childOut)
+		return
+	}
+	docs := makeDocs(*n)
+	nd := len(docs)
+
+	if *mode == "race" {
+		// N=8 distinct documents at a time, each goroutine its own fonts; then a
+		// second pass where the SAME document is rendered by all goroutines
+		// (shared immutable inputs: UA stylesheets, hyphenation dictionaries)
+		for r := 0; r < *rounds; r++ {
+			for i := 0; i < nd; i += batchN {
+				j := i + batchN
+				if j > nd {
+					j = nd
+				}
+				renderBatch(docs[i:j])
+			}
+		}
+		same := make([]Doc, batchN)
+		for i := range same {
+			same[i] = docs[0]
+		}
+		renderBatch(same)
+		fmt.Printf("race-mode: rendered %d documents in batches of %d, %d round(s)\n", nd, batchN, *rounds)
+		return
+	}
+
+	w := vlib.NewWriter(*out)
+	defer w.Close()
+	workDir := filepath.Dir(*out)
+	par := 16
+
+	// --- fresh processes
+	chunk := func(order []int, k int) []Job {
+		var jobs []Job
+		for i := 0; i < len(order); i += k {
+			j := i + k
+			if j > len(order) {
+				j = len(order)
+			}
+			job := Job{Docs: docs}
+			for _, d := range order[i:j] {
+				job.Plan = append(job.Plan, [2]int{d, 1})
+			}
+			jobs = append(jobs, job)
+		}
+		return jobs
+	}
+	fwd := make([]int, nd)
+	rev := make([]int, nd)
+	for i := range fwd {
+		fwd[i] = i
+		rev[i] = nd - 1 - i
+	}
+	per := (nd + par - 1) / par
+	// set 1: chunks in document order, every document 5 times in a row
+	set1 := chunk(fwd, per)
+	for i := range set1 {
+		for j := range set1[i].Plan {
+			set1[i].Plan[j][1] = 5
+		}
+	}
+	// set 2: reversed order, other chunk boundaries: other predecessors
+	set2 := chunk(rev, per+1)
+	// set 3: documents alone in a fresh process
+	nAlone := nd
+	if nAlone > 24 {
+		nAlone = 24
+	}
+	set3 := chunk(fwd[:nAlone], 1)
+
+	all := append(append(append([]Job{}, set1...), set2...), set3...)
+	t0 := time.Now()
+	res := runJobs(all, workDir, "p", par)
+	fmt.Printf("fresh processes: %d jobs in %v\n", len(all), time.Since(t0))
+	t0 = time.Now()
+	byDoc := func(rs [][]Rendered) map[int]Rendered {
+		m := map[int]Rendered{}
+		for _, l := range rs {
+			for _, r := range l {
+				m[r.Doc] = r
+			}
+		}
+		return m
+	}
+	r1 := byDoc(res[:len(set1)])
+	r2 := byDoc(res[len(set1) : len(set1)+len(set2)])
+	r3 := byDoc(res[len(set1)+len(set2):])
+
+	// --- concurrent batches in this process (after a sequential warm-up of
+	// nothing: the first render of the process happens inside a batch too)
+	conc := make([]Trace, nd)
+	for i := 0; i < nd; i += batchN {
+		j := i + batchN
+		if j > nd {
+			j = nd
+		}
+		copy(conc[i:j], renderBatch(docs[i:j]))
+	}
+	fmt.Printf("concurrent batches: %v\n", time.Since(t0))
+	t0 = time.Now()
+	// and sequentially in this process, after all of the above (history)
+	seq := make([]Trace, nd)
+	for i := range docs {
+		if i%3 == 0 { // a third is enough here: every document is already rendered sequentially in sets 1-3
+			seq[i] = renderTrace(docs[i], render.NewPango())
+		}
+	}
+
+	fmt.Printf("sequential tail: %v\n", time.Since(t0))
+	for i, d := range docs {
+		a := r1[i]
+		refD := a.Digests[0]
+		// kind 0: repeats inside one process
+		diff := ""
+		if a.Other != nil {
+			diff = firstDiff(a.First, *a.Other)
+		}
+		w.Add(sameCase(0, "k=5 renders in one process", d, a.First, refD, a.Digests[1:], diff))
+		// kind 1: fresh processes
+		b := r2[i]
+		w.Add(sameCase(1, "first render of two fresh processes (different predecessors)", d, a.First, refD,
+			[][5]uint64{b.Digests[0]}, firstDiff(a.First, b.First)))
+		// kind 3: alone vs after other documents
+		if c, ok := r3[i]; ok {
+			runs := [][5]uint64{a.Digests[0], b.Digests[0]}
+			df := firstDiff(c.First, a.First)
+			if df == "" {
+				df = firstDiff(c.First, b.First)
+			}
+			if seq[i].Status != "" {
+				runs = append(runs, seq[i].Digest())
+				if df == "" {
+					df = firstDiff(c.First, seq[i])
+				}
+			}
+			w.Add(sameCase(3, "alone in a fresh process vs after other documents (two processes, end of this process)", d, c.First, c.Digests[0], runs, df))
+		} else if seq[i].Status != "" {
+			w.Add(sameCase(3, "first render of a fresh process vs at the end of the harness process", d, a.First, refD,
+				[][5]uint64{seq[i].Digest()}, firstDiff(a.First, seq[i])))
+		}
+		// kind 2: concurrent vs sequential
+		w.Add(sameCase(2, fmt.Sprintf("rendered concurrently with %d other documents (own font configuration) vs sequentially", batchN-1), d, a.First, refD,
+			[][5]uint64{conc[i].Digest()}, firstDiff(a.First, conc[i])))
+		// anchors in model order
+		if a.First.Status == "ok" {
+			na := 0
+			maxPer := 0
+			for _, p := range a.First.Anchors {
+				na += len(p)
+				if len(p) > maxPer {
+					maxPer = len(p)
+				}
+			}
+			w.Add(vlib.Case{Kind: "anchors", Coq: coqAnchors(a.First),
+				Desc: map[string]interface{}{"doc": d.Name, "anchors": a.First.Anchors, "input": d.HTML},
+				Tags: d.Tags, Nontrivial: maxPer > 1, Key: "anchors/" + d.Name})
+		}
+	}
+
+	raceCase(w, workDir)
+
+	rng := vlib.NewRng(vlib.Seed() ^ 0xc15)
+	unpackCases(w, rng)
+	omapCases(w, rng, 40+nd*4)
 }
